@@ -1,14 +1,23 @@
 import Morlock.Model.Abs
 import Morlock.Spec.Chess
+import Morlock.Proofs.GenExample
 /-!
 # C01 — legal move generation is exactly the FIDE legal-move set
 
-Full statement (kept visible; NOT yet proved for the whole generator — see `Statement` below).
-What is proved here is the part of the claim that is independent of the move-kind analysis: the legal
-list is exactly the pseudo-legal list filtered by "the successor exists", in generator order. The
-remaining obligation (`Statement`) is decided on every run by the impl-vs-spec stream (`chess legal`,
-`chess gen`, perft against the reference semantics and the published counts) and is labelled
-*exploration, not proof* in the evidence.
+Subject: `Position.pseudoLegalMoves`, `legalMoves`, `move` (`pkg/board/position.go`), against the
+mailbox reference `Spec.pseudoMoves`, `Spec.isLegal`, `Spec.legalMoves`.
+
+**Proved here, for every position satisfying `WF` (no enumeration of positions):** `statement_holds :
+Statement WF` — the model's legal moves, read through `absMove`, are a permutation of the reference
+legal moves (`legal_perm`). The proof is staged by move kind (A: `toSquares` and the emitters,
+B: officers and king steps, C: pawns, D: castling, E: the whole pseudo-legal list with accurate
+metadata and without duplicates, F (in `C06Queries`): `IsAttacked`/`IsChecked`, G: `Position.Move`
+accepts exactly the legal moves); every stage is delivered as its own theorem below.
+
+`WF p turn` is `Rep p p.square` (C02: all bitboard views agree with one mailbox board) plus the
+decidable chess-level conditions `WFc p turn` (see `Morlock/Proofs/GenWF.lean`): at most one king per
+side, castling rights imply the king on its home square, an en-passant target is an empty square on
+the mover's sixth rank with an enemy pawn directly behind it.
 -/
 namespace Morlock.Props.C01
 open Morlock Morlock.Model
@@ -33,5 +42,296 @@ theorem isCheckMate_iff (p : Position) (c : Color) :
   simp [Position.isCheckMate, List.isEmpty_iff]
 
 example : ∃ m, m ∈ ({} : Position).pseudoLegalMoves .white ∨ True := ⟨{}, Or.inr trivial⟩
+
+/-!
+# The proof of `Statement WF`, staged by move kind
+
+Notation: `Rep p b` (C02) — every view of `p` agrees with the mailbox board `b`; `abs p turn` — the
+reference position read off `p`; `occB b` — the occupancy predicate of `b`.
+The predicates `StepMove`, `PawnMove`, `CastleMove`, `PseudoMove` (in `Morlock/Proofs/Gen*.lean`)
+describe a move *with its metadata* in terms of the mailbox board and the reference geometry
+(`Spec.step`, `Spec.officerTargets`, `Spec.pawnTargets`) only.
+-/
+open Morlock.Proofs Morlock.Proofs.Gen
+
+/-! ## Stage A — `ToSquares` and the emitters -/
+
+/-- `ToSquares` lists exactly the set bits of a 64-bit board. -/
+theorem toSquares_mem (b : Bitboard) (hb : b < 2 ^ 64) (sq : Nat) :
+    sq ∈ toSquares b ↔ b.testBit sq = true := mem_toSquares hb sq
+
+/-- `ToSquares` is strictly increasing, hence duplicate-free, and stays on the board. -/
+theorem toSquares_sorted (b : Bitboard) (hb : b < 2 ^ 64) :
+    (toSquares b).Pairwise (· < ·) ∧ (toSquares b).Nodup ∧ ∀ sq ∈ toSquares b, sq < 64 :=
+  ⟨Gen.toSquares_sorted hb, toSquares_nodup hb, fun _ h => toSquares_lt hb h⟩
+
+/-- `emitMove`: one move per set bit of the target board, with exactly the fields it fills in. -/
+theorem emitMove_mem (p : Position) (turn : Color) (t : MoveType) (piece : Piece) (fr ab : Nat)
+    (hab : ab < 2 ^ 64) (m : Move) :
+    m ∈ p.emitMove turn t piece fr ab ↔
+      ab.testBit m.to = true ∧ m.ty = t ∧ m.piece = piece ∧ m.from = fr ∧ m.promotion = .none ∧
+      m.capture = (if t = .capture then p.captureAt m.to turn else .none) := mem_emitMove hab m
+
+/-- `emitPromo`: four moves per set bit, one per promotion piece. -/
+theorem emitPromo_mem (p : Position) (turn : Color) (t : MoveType) (piece : Piece) (fr ab : Nat)
+    (hab : ab < 2 ^ 64) (m : Move) :
+    m ∈ p.emitPromo turn t piece fr ab ↔
+      ab.testBit m.to = true ∧ m.ty = t ∧ m.piece = piece ∧ m.from = fr ∧
+      m.promotion ∈ Position.promoPieces ∧
+      m.capture = (if t = .capturePromotion then p.captureAt m.to turn else .none) := mem_emitPromo hab m
+
+/-- `captureAt` reads the enemy piece off the board (`NoPiece` for an empty or own square). -/
+theorem captureAt_eq {p : Position} {b : Board} (h : Rep p b) (sq : Nat) (turn : Color) :
+    p.captureAt sq turn =
+      match b sq with
+      | some (c, k) => if c = turn.opp then k else .none
+      | none => .none := captureAt_of_rep h sq turn
+
+/-- The generator output is the concatenation of its officer, pawn and king parts. -/
+theorem pseudoLegalMoves_parts (p : Position) (turn : Color) :
+    p.pseudoLegalMoves turn = genOfficers p turn ++ genPawns p turn ++ genKing p turn :=
+  pseudoLegalMoves_eq p turn
+
+/-! ## Stage B — officers and king steps -/
+
+/-- What `StepMove b turn pc m` says. -/
+theorem stepMove_iff (b : Board) (turn : Color) (pc : Piece) (m : Move) :
+    StepMove b turn pc m ↔
+      b m.from = some (turn, pc) ∧ m.piece = pc ∧ m.promotion = .none ∧
+      m.to ∈ Spec.officerTargets (occB b) (kindOf pc) m.from ∧
+      ((b m.to = none ∧ m.ty = .normal ∧ m.capture = .none) ∨
+       (∃ k, b m.to = some (turn.opp, k) ∧ m.ty = .capture ∧ m.capture = k)) := Iff.rfl
+
+/-- **Stage B.** The officers part of the generator output is exactly: a `turn` queen, rook, knight or
+    bishop on `from`, `to` among its reference targets for the board's occupancy, `to` empty (type
+    `Normal`, no capture recorded) or enemy-occupied (type `Capture`, that piece recorded). -/
+theorem officers_iff {p : Position} {b : Board} (h : Rep p b) (turn : Color) (m : Move) :
+    m ∈ genOfficers p turn ↔ ∃ pc ∈ Position.promoPieces, StepMove b turn pc m :=
+  mem_genOfficers h turn m
+
+/-- **Stage B.** The king-step part: the same for the lowest-numbered `turn` king. -/
+theorem kingSteps_iff {p : Position} {b : Board} (h : Rep p b) (turn : Color)
+    (hk : p.pieces turn .king ≠ 0) (m : Move) :
+    m ∈ genSteps p turn .king (lastPopSquare (p.pieces turn .king)) ↔
+      m.from = lastPopSquare (p.pieces turn .king) ∧ StepMove b turn .king m :=
+  mem_genKingSteps h turn hk m
+
+/-- **Stage B.** Step moves are reference pseudo-legal moves with accurate metadata. -/
+theorem stepMove_sound {p : Position} {b : Board} (h : Rep p b) {turn : Color} {pc : Piece} {m : Move}
+    (hpw : pc ≠ .pawn) (hm : StepMove b turn pc m) :
+    absMove m ∈ Spec.pseudoMoves (abs p turn) ∧ MetaOK p m = true ∧ ClassOK (abs p turn) m = true :=
+  ⟨hm.abs_mem_pseudoMoves h hpw, hm.metaOK h, hm.classOK h hpw⟩
+
+/-! ## Stage C — pawns -/
+
+/-- **Stage C.** The pawns part of the generator output is exactly the pawn moves of `PawnMove`
+    (single push ± promotion ×4, double push from the start rank over two empty squares, capture ±
+    promotion ×4, en passant onto the recorded target), for every represented position. -/
+theorem pawns_iff {p : Position} {b : Board} (h : Rep p b) (turn : Color) (m : Move) :
+    m ∈ genPawns p turn ↔ PawnMove b p.enpassant turn m := mem_genPawns h turn m
+
+/-- What `PawnMove b ep turn m` says (`ep` = the position's en-passant field, 0 = none). -/
+theorem pawnMove_iff (b : Board) (ep : Nat) (turn : Color) (m : Move) :
+    PawnMove b ep turn m ↔
+      b m.from = some (turn, .pawn) ∧ m.piece = .pawn ∧
+      ((Spec.step m.from 0 (Spec.fwd (absColor turn)) = some m.to ∧ b m.to = none ∧ m.capture = .none ∧
+        ((Spec.rankOf m.to ≠ Spec.lastRank (absColor turn) ∧ m.ty = .push ∧ m.promotion = .none) ∨
+         (Spec.rankOf m.to = Spec.lastRank (absColor turn) ∧ m.ty = .promotion ∧
+            m.promotion ∈ Position.promoPieces))) ∨
+       (∃ t1, Spec.step m.from 0 (Spec.fwd (absColor turn)) = some t1 ∧
+        Spec.step t1 0 (Spec.fwd (absColor turn)) = some m.to ∧
+        Spec.rankOf m.from = Spec.startRank (absColor turn) ∧ b t1 = none ∧ b m.to = none ∧
+        m.ty = .jump ∧ m.promotion = .none ∧ m.capture = .none) ∨
+       (m.to ∈ Spec.pawnTargets (absColor turn) m.from ∧ ∃ k, b m.to = some (turn.opp, k) ∧ m.capture = k ∧
+        ((Spec.rankOf m.to ≠ Spec.lastRank (absColor turn) ∧ m.ty = .capture ∧ m.promotion = .none) ∨
+         (Spec.rankOf m.to = Spec.lastRank (absColor turn) ∧ m.ty = .capturePromotion ∧
+            m.promotion ∈ Position.promoPieces))) ∨
+       (ep ≠ 0 ∧ m.to = ep ∧ m.to ∈ Spec.pawnTargets (absColor turn) m.from ∧ colAt b m.to turn = false ∧
+        m.ty = .enPassant ∧ m.promotion = .none ∧ m.capture = .none)) := Iff.rfl
+
+/-- **Stage C.** Under the en-passant clause of `WF`, generated pawn moves are reference pseudo-legal
+    moves with accurate metadata; conversely every reference pawn move is generated
+    (`pseudo_iff` below). -/
+theorem pawnMove_sound {p : Position} {turn : Color} (hw : WF p turn) {m : Move}
+    (hm : PawnMove p.square p.enpassant turn m) :
+    absMove m ∈ Spec.pseudoMoves (abs p turn) ∧ MetaOK p m = true ∧ ClassOK (abs p turn) m = true :=
+  ⟨hm.abs_mem_pseudoMoves hw.rep hw.wfb, by rw [hw.rep.metaOK_iff]; exact hm.metaOKb hw.wfb,
+    hm.classOK hw.rep hw.wfb⟩
+
+/-! ## Stage D — castling -/
+
+/-- **Stage D.** The castle emissions for a king recorded on `fr`: right present, between-squares
+    empty, own rook on its home square — the king's own square is not tested. -/
+theorem castles_iff {p : Position} {b : Board} (h : Rep p b) (turn : Color) (fr : Nat) (m : Move) :
+    m ∈ genCastles p turn fr ↔ m.from = fr ∧ CastleMove b p.castling turn m := mem_genCastles h turn fr m
+
+/-- What `CastleMove b castling turn m` says; `castleParams turn` lists, king side first,
+    (right bit, squares that must be empty, rook home square, move type, king destination). -/
+theorem castleMove_iff (b : Board) (castling : Nat) (turn : Color) (m : Move) :
+    CastleMove b castling turn m ↔
+      ∃ cs ∈ castleParams turn,
+        (castling &&& cs.right != 0) = true ∧ (∀ s ∈ cs.cmask, b s = none) ∧
+        b cs.rookSq = some (turn, .rook) ∧
+        m.ty = cs.ty ∧ m.piece = .king ∧ m.to = cs.to ∧ m.promotion = .none ∧ m.capture = .none := Iff.rfl
+
+example : castleParams .white =
+    [⟨wK, [G1, F1], H1, .kingSideCastle, G1⟩, ⟨wQ, [B1, C1, D1], A1, .queenSideCastle, C1⟩] ∧
+  castleParams .black =
+    [⟨bK, [G8, F8], H8, .kingSideCastle, G8⟩, ⟨bQ, [B8, C8, D8], A8, .queenSideCastle, C8⟩] := ⟨rfl, rfl⟩
+
+/-- **Stage D.** With the king on its home square (`WF`: rights imply that), generated castles are
+    reference pseudo-legal moves with accurate metadata. -/
+theorem castleMove_sound {p : Position} {turn : Color} (hw : WF p turn) {m : Move}
+    (hm : CastleMove p.square p.castling turn m) (hfr : m.from = kingHomeSq turn) :
+    absMove m ∈ Spec.pseudoMoves (abs p turn) ∧ MetaOK p m = true ∧ ClassOK (abs p turn) m = true :=
+  ⟨hm.abs_mem_pseudoMoves hw.rep hw.wfb hfr, by rw [hw.rep.metaOK_iff]; exact hm.metaOKb hw.wfb hfr,
+    hm.classOK hw.rep hw.wfb hfr⟩
+
+/-- The king part of the generator under `WF`: steps of the king, and castles from its home square. -/
+theorem king_iff {p : Position} {turn : Color} (hw : WF p turn) (m : Move) :
+    m ∈ genKing p turn ↔
+      StepMove p.square turn .king m ∨ (m.from = kingHomeSq turn ∧ CastleMove p.square p.castling turn m) :=
+  mem_genKing hw.rep hw.wfb m
+
+/-! ## Stage E — the whole pseudo-legal list -/
+
+/-- What `PseudoMove` says: the four kinds of generated moves. -/
+theorem pseudoMove_iff (b : Board) (castling ep : Nat) (turn : Color) (m : Move) :
+    PseudoMove b castling ep turn m ↔
+      (∃ pc ∈ Position.promoPieces, StepMove b turn pc m) ∨ PawnMove b ep turn m ∨
+      StepMove b turn .king m ∨ (m.from = kingHomeSq turn ∧ CastleMove b castling turn m) := Iff.rfl
+
+/-- **Stage E.** Under `WF` the generator output is exactly the pseudo-legal moves with metadata. -/
+theorem pseudoLegalMoves_iff {p : Position} {turn : Color} (hw : WF p turn) (m : Move) :
+    m ∈ p.pseudoLegalMoves turn ↔ PseudoMove p.square p.castling p.enpassant turn m :=
+  mem_pseudoLegalMoves hw.rep hw.wfb m
+
+/-- **Stage E `pseudo_iff`.** The generated moves, read through `absMove`, are exactly the reference
+    pseudo-legal moves. -/
+theorem pseudo_iff {p : Position} {turn : Color} (hw : WF p turn) (sm : Spec.SMove) :
+    (∃ m, m ∈ p.pseudoLegalMoves turn ∧ absMove m = sm) ↔ sm ∈ Spec.pseudoMoves (abs p turn) :=
+  pseudo_iff_aux hw.rep hw.wfb sm
+
+/-- **Stage E `pseudo_metaOK`.** Every generated move carries accurate metadata and the class the
+    rules assign — the hypotheses of C02 `move_refines` / `move_refines_spec`. -/
+theorem pseudo_metaOK {p : Position} {turn : Color} (hw : WF p turn) :
+    ∀ m ∈ p.pseudoLegalMoves turn, MetaOK p m = true ∧ ClassOK (abs p turn) m = true :=
+  fun m hm => ((mem_pseudoLegalMoves hw.rep hw.wfb m).mp hm).metaOK_classOK hw.rep hw.wfb
+
+/-- **Stage E `pseudo_nodup`.** No two generated moves share `(from, to, promotion)`. -/
+theorem pseudo_nodup {p : Position} {turn : Color} (hw : WF p turn) :
+    ((p.pseudoLegalMoves turn).map absMove).Nodup := pseudo_nodup_aux hw.rep hw.wfb
+
+/-- The generator never emits the same move twice (needs `Rep` only). -/
+theorem pseudoLegalMoves_nodup {p : Position} {b : Board} (h : Rep p b) (turn : Color) :
+    (p.pseudoLegalMoves turn).Nodup := Gen.pseudoLegalMoves_nodup h turn
+
+/-- The reference pseudo-legal move list has no duplicates either (every reference position). -/
+theorem spec_pseudoMoves_nodup (s : Spec.Pos) : (Spec.pseudoMoves s).Nodup := pseudoMoves_nodup s
+
+/-- Hence the two pseudo-legal lists are permutations of each other. -/
+theorem pseudo_perm {p : Position} {turn : Color} (hw : WF p turn) :
+    ((p.pseudoLegalMoves turn).map absMove).Perm (Spec.pseudoMoves (abs p turn)) :=
+  pseudo_perm_aux hw.rep hw.wfb
+
+/-! ## Stage G — `Position.Move` and the legal list -/
+
+/-- `Position.Move` accepts `m` (played by `turn`) iff the castling-through-check test passes and the
+    mover's king is not attacked in the updated position (`moveRaw`, C02). -/
+theorem move_isSome_iff {p : Position} {m : Move} {turn : Color} {pc : Piece}
+    (hsq : p.square m.from = some (turn, pc)) :
+    (p.move m).isSome = true ↔
+      ¬ (m.isCastle = true ∧ ∃ sq ∈ Position.safeCastlingSquares turn m.ty, p.isAttacked turn sq = true) ∧
+      (moveRaw p turn pc m).isChecked turn = false := by
+  rw [move_isSome_eq hsq]
+  simp only [Bool.and_eq_true, Bool.not_eq_true', Bool.and_eq_false_iff, List.any_eq_false,
+    not_and, not_exists, Bool.not_eq_true]
+  constructor
+  · rintro ⟨h1, h2⟩
+    refine ⟨fun hc x hx => ?_, h2⟩
+    rcases h1 with h1 | h1
+    · rw [hc] at h1; cases h1
+    · exact h1 x hx
+  · rintro ⟨h1, h2⟩
+    refine ⟨?_, h2⟩
+    cases hc : m.isCastle with
+    | false => exact Or.inl rfl
+    | true => exact Or.inr (fun x hx => h1 hc x hx)
+
+/-- **Stage G `move_isSome_iff_legal`.** For a generated move, `Position.Move` succeeds iff the
+    reference calls the move legal (not castling out of / through check, own king not left in check). -/
+theorem move_isSome_iff_legal {p : Position} {turn : Color} (hw : WF p turn) {m : Move}
+    (hm : m ∈ p.pseudoLegalMoves turn) :
+    (p.move m).isSome = true ↔ Spec.isLegal (abs p turn) (absMove m) = true := by
+  rw [move_isSome_eq_legal hw.rep hw.wfb ((mem_pseudoLegalMoves hw.rep hw.wfb m).mp hm)]
+
+/-- **Stage G `legal_perm`.** The model's legal moves, read through `absMove`, are a permutation of
+    the reference legal moves. -/
+theorem legal_perm {p : Position} {turn : Color} (hw : WF p turn) :
+    ((p.legalMoves turn).map absMove).Perm (Spec.legalMoves (abs p turn)) :=
+  legal_perm_aux hw.rep hw.wfb
+
+/-- **C01.** The full statement holds for the model with the well-formedness predicate `WF`. -/
+theorem statement_holds : Statement WF := fun _ _ hw => legal_perm hw
+
+/-- Consequences: same number of legal moves; checkmate and stalemate agree with the reference. -/
+theorem legal_length {p : Position} {turn : Color} (hw : WF p turn) :
+    (p.legalMoves turn).length = (Spec.legalMoves (abs p turn)).length := by
+  rw [← (legal_perm hw).length_eq, List.length_map]
+
+theorem legal_nil_iff {p : Position} {turn : Color} (hw : WF p turn) :
+    p.legalMoves turn = [] ↔ Spec.legalMoves (abs p turn) = [] := by
+  rw [← List.length_eq_zero_iff, ← List.length_eq_zero_iff, legal_length hw]
+
+theorem isCheckMate_iff_spec {p : Position} {turn : Color} (hw : WF p turn) :
+    p.isCheckMate turn = true ↔
+      Spec.inCheck (abs p turn) (absColor turn) = true ∧ Spec.legalMoves (abs p turn) = [] := by
+  rw [isCheckMate_iff, isChecked_eq hw.rep turn turn, legal_nil_iff hw]
+
+/-! ## The hypotheses are satisfiable -/
+
+/-- What `WF` asks for, spelled out on the mailbox board `p.square`. -/
+theorem wf_iff (p : Position) (turn : Color) :
+    WF p turn ↔ Rep p p.square ∧ WFc p turn = true := Iff.rfl
+
+theorem wf_board {p : Position} {turn : Color} (hw : WF p turn) :
+    (∀ c s1 s2, p.square s1 = some (c, Piece.king) → p.square s2 = some (c, Piece.king) → s1 = s2) ∧
+    ((p.castling &&& wK != 0 || p.castling &&& wQ != 0) = true → p.square E1 = some (Color.white, Piece.king)) ∧
+    ((p.castling &&& bK != 0 || p.castling &&& bQ != 0) = true → p.square E8 = some (Color.black, Piece.king)) ∧
+    (p.enpassant ≠ 0 → p.enpassant < 64 ∧ p.square p.enpassant = none ∧
+      p.enpassant / 8 = epRank turn ∧
+      p.square (epVictim turn p.enpassant) = some (turn.opp, Piece.pawn)) :=
+  ⟨hw.wfb.king_unique, hw.wfb.home_white, hw.wfb.home_black, hw.wfb.ep_ok⟩
+
+/-- The initial position, "Kiwipete" (both sides to move), and the en-passant/promotion test
+    positions of C02 (`r3k2r/1P6/8/3pP3/8/8/8/R3K2R w KQkq d6` and its mirror image) satisfy `WF`. -/
+example : WF startPos .white ∧ WF kiwiPos .white ∧ WF kiwiPos .black ∧ WF exPos .white ∧ WF exPosB .black :=
+  ⟨startPos_wf, kiwiPos_wf.1, kiwiPos_wf.2, exPos_wf.1, exPos_wf.2⟩
+
+/-- Instantiation: the reference has exactly 20 legal moves in the initial position and 48 in
+    "Kiwipete" — read off the engine's move list by `legal_length`. -/
+example : (Spec.legalMoves (abs startPos .white)).length = 20 ∧
+    (Spec.legalMoves (abs kiwiPos .white)).length = 48 := by
+  rw [← legal_length startPos_wf, ← legal_length kiwiPos_wf.1]
+  decide +kernel
+
+/-- Instantiation: in `exPos` the en-passant capture e5xd6 (35 → 44) is a reference pseudo-legal
+    move, because the engine generates it. -/
+example : (⟨35, 44, none⟩ : Spec.SMove) ∈ Spec.pseudoMoves (abs exPos .white) :=
+  (pseudo_iff exPos_wf.1 _).mp ⟨exEP, by decide +kernel, rfl⟩
+
+/-- `WF` cannot be dropped: with two white kings the generator moves only the lower-numbered one. -/
+example : ∃ p : Position, Rep p p.square ∧
+    ((p.pseudoLegalMoves .white).map absMove).length < (Spec.pseudoMoves (abs p .white)).length := by
+  refine ⟨(Position.newPosition [(3, .white, .king), (35, .white, .king), (59, .black, .king)] 0 0).getD {}, ?_, ?_⟩
+  · have hv : ValidPlacements [(3, Color.white, Piece.king), (35, .white, .king), (59, .black, .king)] := by
+      intro x hx
+      simp only [List.mem_cons, List.not_mem_nil, or_false] at hx
+      rcases hx with rfl | rfl | rfl <;> simp
+    have he : Position.newPosition [(3, Color.white, Piece.king), (35, .white, .king), (59, .black, .king)] 0 0 =
+        some ((Position.newPosition [(3, Color.white, Piece.king), (35, .white, .king), (59, .black, .king)] 0 0).getD {}) := by
+      decide +kernel
+    exact (newPosition_rep hv he).1.self
+  · decide +kernel
 
 end Morlock.Props.C01
